@@ -174,6 +174,7 @@ def run(ctx):
                             res.failures.append(f)
                         if not xsitype:
                             pending.append(({"op": "xsd.parse", "mode": "strict" if strict else "lax", "ty": ty, "node": xmlcanon.node(d, strip_ws=True)}, r, ty, c))
+    surplus_cases(ctx, res, pending)
     c03.compare_model(ctx, res, pending)
     nil_cases(ctx, res)
     header_cases(ctx, res)
@@ -185,6 +186,69 @@ def run(ctx):
                 "tier), at every depth, decoded in strict and non-strict mode; plus SOAP replies with declared output headers and an unknown "
                 "header entry at every position. distinct = distinct (schema, parent, position, mode)")
     return res
+
+
+def has_raw(v):
+    if isinstance(v, dict):
+        return "__xml__" in v or any(has_raw(x) for x in v.values())
+    if isinstance(v, list):
+        return any(has_raw(x) for x in v)
+    return False
+
+
+def surplus_cases(ctx, res, pending):
+    """a further occurrence of a *declared* element where the schema allows no more of it (beyond maxOccurs, or a second
+    occurrence of an xsd:all member): not allowed at that position, so it must be rejected (strict) or surface as raw
+    XML (non-strict).  Only documents libxml2 rejects are used."""
+    nschemas = ctx.n(60, 600)
+    for i in range(nschemas):
+        seed = ctx.seed * 100000 + 50000 + i
+        case = enginea.Case(seed, "core")
+        for doc in case.documents(1):
+            if doc.attrib.pop("data-xsitype", None) is not None or not case.validator.validate(doc):
+                continue
+            elems = [e for e in doc.iter()]
+            done = 0
+            for ci, child in enumerate(elems):
+                parent = child.getparent()
+                if parent is None:
+                    continue
+                kind = content_kind(case, parent)
+                places = ["after"] + (["end", "start"] if kind == "all" else [])
+                for place in places:
+                    d = copy.deepcopy(doc)
+                    c2 = [e for e in d.iter()][ci]
+                    p2 = c2.getparent()
+                    dup = copy.deepcopy(c2)
+                    if place == "after":
+                        c2.addnext(dup)
+                    elif place == "end":
+                        p2.append(dup)
+                    else:
+                        p2.insert(0, dup)
+                    if case.validator.validate(d):
+                        continue           # the schema allows another occurrence here
+                    done += 1
+                    ty = case.model_type(xsdgen.height(d) + 1)
+                    for strict in (True, False):
+                        r = enginea.impl_parse(case, d, strict)
+                        c = dict(seed=seed, profile="core", xsd=case.xsd, document=etree.tostring(d).decode(), strict=strict,
+                                 kind="surplus", parent_content=kind)
+                        res.case(key=("surplus", seed, ci, place, strict), nontrivial=True)
+                        res.count("surplus-occurrence:" + str(kind))
+                        res.count("outcome:" + r["outcome"])
+                        fail = None
+                        if strict and r["outcome"] == "ok":
+                            fail = "strict mode accepted a reply with an occurrence of a declared element beyond what the schema allows"
+                        elif not strict and r["outcome"] == "ok" and not has_raw(r["value"]):
+                            fail = "non-strict mode dropped a surplus occurrence of a declared element without trace"
+                        elif not strict and r["outcome"] not in ("ok", "XMLParseError", "TypeError"):
+                            fail = "non-strict decoding raised %s %s" % (r["outcome"], r.get("msg", ""))
+                        if fail:
+                            res.failures.append(dict(what=fail, case=c))
+                        pending.append(({"op": "xsd.parse", "mode": "strict" if strict else "lax", "ty": ty, "node": xmlcanon.node(d, strip_ws=True)}, r, ty, c))
+                if done >= (12 if ctx.tier == "thorough" else 4):
+                    break
 
 
 NIL_XSD = ('<xs:schema xmlns:xs="http://www.w3.org/2001/XMLSchema" xmlns:t="urn:fam" targetNamespace="urn:fam" elementFormDefault="qualified">'
@@ -312,6 +376,9 @@ def replay(ctx, payload):
     case = enginea.Case(c["seed"], c["profile"])
     d = etree.fromstring(c["document"].encode())
     r = enginea.impl_parse(case, d, c["strict"])
+    if c.get("kind") == "surplus":
+        ok = r["outcome"] != "ok" if c["strict"] else (r["outcome"] != "ok" or has_raw(r["value"]))
+        return ok, "surplus occurrence, %s outcome %s" % ("strict" if c["strict"] else "lax", r["outcome"])
     if c["strict"]:
         return r["outcome"] != "ok", "strict outcome " + r["outcome"]
     return (r["outcome"] != "ok" or contains_stranger(r["value"])), "lax outcome %s, stranger kept: %s" % (r["outcome"], r["outcome"] == "ok" and contains_stranger(r["value"]))
